@@ -1,17 +1,24 @@
 """txmc: statement-level interleavings of concurrent database operations under an InnoDB-like row-lock model.
 
-The minisql engine executes a stored procedure recursively on the Python stack, so a session can only be
-suspended in the middle of a CALL if its statement runs on its own stack: every top-level statement is executed in
-a pooled OS thread under a strict baton (exactly one thread - the asyncio/main thread or one worker - runs at
-any time).  `TxModel` is installed as `Database.txmodel`; the engine then
-  * routes every statement of a statement list through `run_stmt` (yield point + lock-wait retry loop),
+The minisql engine executes a stored procedure recursively on the Python stack, so a session cannot simply be
+suspended in the middle of a CALL.  Instead of a thread per session, the procedure-level control flow (CALL, BEGIN..END,
+IF, LOOP, WHILE and the top-level statement wrapper) is mirrored here as GENERATORS (`g_top`, `g_stmt`, ...) that
+share the engine's own building blocks (`Session._prepare`, `_top_begin/_top_end`, `_call_enter`, `exec_stmt` for every
+leaf statement) and `yield` at every suspension point; everything below a leaf statement (expressions, triggers,
+stored functions, procedures called deeper than `proc_depth`) runs in the unmodified recursive engine.  No OS
+thread is involved: one execution is an ordinary single-threaded asyncio run, nothing can leak, and an abandoned
+statement is closed with generator.close().  (`txpairs` cross-checks the mirror on every item: each serial order run
+through the generators must leave exactly the store the plain engine leaves.)
+
+`TxModel` is installed as `Database.txmodel`; the engine then
+  * routes every statement of a statement list it executes itself through `run_stmt` (lock mode of DML sources),
   * asks `scan` for the rows of a base table (plain reads get a committed / snapshot view, locking reads and
     DML see the latest versions),
   * asks `lock_row` / `lock_binding` before it writes a row / returns a row of a locking read,
   * calls `release` when a transaction ends.
-The asyncio side (`TxConn`, used by the aiomysql shim through its optional `aexecute`/`acommit` hooks) resumes
-the worker, and `await asyncio.sleep(0)` at every yield point so that the virtual loop's explorer chooses who
-steps next; a session that waits for a lock awaits an asyncio.Event that the holder's commit / rollback sets.
+The asyncio side (`TxConn`, used by the aiomysql shim through its optional `aexecute`/`acommit` hooks) advances the
+generator and `await asyncio.sleep(0)`s at every yield point so that the virtual loop's explorer chooses who steps
+next; a session that waits for a lock awaits an asyncio.Event that the holder's commit / rollback sets.
 
 Model (what is and is not InnoDB):
   * record locks only: S / X per (table, primary key); no gap / next-key / insert-intention locks, no phantom
@@ -41,8 +48,6 @@ from __future__ import annotations
 import asyncio
 import contextvars
 import hashlib
-import os
-import threading
 from typing import Any, Dict, List, Optional
 
 OP: contextvars.ContextVar = contextvars.ContextVar('txmc_op', default=None)
@@ -62,10 +67,6 @@ class LockWait(BaseException):
         self.holders = list(holders)
 
 
-class Abort(BaseException):
-    """Raised at a suspension point of a worker whose execution is being torn down."""
-
-
 class HarnessError(Exception):
     pass
 
@@ -74,98 +75,6 @@ class DirtyRow(dict):
     """Latest version of a row another open transaction has updated, as met by a locking scan."""
 
     __slots__ = ('pre', 'owner', 'lkey', 'tname')
-
-
-# ---------------------------------------------------------------------------------------------------------
-# pooled worker threads with a strict baton
-# ---------------------------------------------------------------------------------------------------------
-
-class _Worker:
-    def __init__(self, pool):
-        self.pool = pool
-        self.sem = threading.Lock()   # binary semaphore: released by the main thread to hand the baton over
-        self.sem.acquire()
-        self.fn = None
-        self.status = 'idle'
-        self.result = None
-        self.exc = None
-        self.abort = False
-        self.quit = False
-        self.thread = threading.Thread(target=self._main, daemon=True, name='txmc-worker')
-        self.thread.start()
-
-    def _main(self):
-        while True:
-            self.sem.acquire()
-            if self.quit:
-                return
-            try:
-                if self.abort:
-                    raise Abort()
-                self.result = self.fn()
-                self.exc = None
-            except BaseException as e:  # noqa: BLE001
-                self.result = None
-                self.exc = e
-            self.fn = None
-            self.status = 'done'
-            self.pool.main_sem.release()
-
-    # worker side
-    def suspend(self, status):
-        self.status = status
-        self.pool.main_sem.release()
-        self.sem.acquire()
-        if self.abort:
-            raise Abort()
-        self.status = 'running'
-
-
-class _Pool:
-    def __init__(self):
-        self.pid = os.getpid()
-        self.idle: List[_Worker] = []
-        self.main_sem = threading.Lock()   # binary semaphore: released by a worker to hand the baton back
-        self.main_sem.acquire()
-        self.created = 0
-        self.busy = 0
-
-    def get(self) -> _Worker:
-        if self.idle:
-            w = self.idle.pop()
-        else:
-            w = _Worker(self)
-            self.created += 1
-        w.status = 'new'
-        w.abort = False
-        w.result = w.exc = None
-        self.busy += 1
-        return w
-
-    def put(self, w: _Worker):
-        assert w.status == 'done', w.status
-        w.status = 'idle'
-        self.busy -= 1
-        self.idle.append(w)
-
-    def switch_to(self, w: _Worker):
-        """main thread: hand the baton to `w`, return when it suspends or finishes."""
-        w.sem.release()
-        self.main_sem.acquire()
-
-
-_POOL: Optional[_Pool] = None
-
-
-def pool() -> _Pool:
-    global _POOL
-    if _POOL is None or _POOL.pid != os.getpid():  # threads do not survive fork
-        _POOL = _Pool()
-    return _POOL
-
-
-def live_worker_threads() -> int:
-    return sum(1 for t in threading.enumerate() if t.name == 'txmc-worker')
 
 
 # ---------------------------------------------------------------------------------------------------------
@@ -202,8 +111,7 @@ class TxModel:
         self.sessions: List[Any] = []
         self.waiting: Dict[Any, list] = {}
         self.to_wake: List[Any] = []
-        self.pool = pool()
-        self.inflight: List[_Worker] = []
+        self.inflight: List[Any] = []      # sessions with a statement in flight
         self.stats = {'yields': 0, 'lock_waits': 0, 'deadlocks': 0, 'locks_s': 0, 'locks_x': 0, 'stmt_retries': 0,
                       'dirty_column_waits': 0, 'preimage_rows_served': 0, 'beyond_deadlock_bound': 0}
         self.trace: Optional[list] = None   # set to [] to record (op, event) pairs of one execution
@@ -212,6 +120,7 @@ class TxModel:
         self._table_digest: Dict[str, bytes] = {}
         self._dirty_tables = set(db.store.tables)
         self._reads_cache: Dict[int, bool] = {}
+        self._ident: Dict[int, Any] = {}
         self.history: Dict[Any, bytes] = {}  # op -> hash of its python-level DB interaction history (for state hashing)
         self.db_tasks: set = set()          # asyncio tasks suspended at a database yield point / lock wait (see TxLoop)
 
@@ -219,7 +128,7 @@ class TxModel:
     def attach(self, s):
         s.tx_idx = len(self.sessions)
         s.tx_op = OP.get()
-        s.tx_worker = None
+        s.tx_status = None   # None | 'running' | 'yield' | 'blocked' while a statement of this session is in flight
         s.tx_wake = None
         s.tx_snap = None
         s.tx_stack = []
@@ -259,33 +168,121 @@ class TxModel:
         return r
 
     def run_stmt(self, s, st, scope):
-        tag = st[0]
-        frames = s.frames
-        yieldable = len(frames) <= self.proc_depth and all(f.kind == 'PROCEDURE' for f in frames)
+        """Engine hook: a statement of a list the ENGINE executes itself (trigger / function bodies, handler bodies,
+        procedures called deeper than proc_depth, direct use of a session).  Never suspends."""
         saved_mode = s.dml_mode
-        s.dml_mode = 'S' if tag in DML else None
+        s.dml_mode = 'S' if st[0] in DML else None
         try:
-            if not yieldable:
-                return s.exec_stmt(st, scope)
-            if tag in COMPOUND or (tag == 'call' and len(frames) < self.proc_depth):
-                if self._stmt_reads(st):
-                    self.yield_point(s, st)
-                return s.exec_stmt(st, scope)
-            if tag in LEAF_DB or tag == 'call':
-                if tag != 'select' or self.yield_plain_selects or st[1].get('lock') or st[1].get('kind') != 'select':
-                    self.yield_point(s, st)
-            elif tag in TX_END:
-                if s.held or s.undo:
-                    self.yield_point(s, st)
-            elif self._stmt_reads(st):
-                self.yield_point(s, st)
-            else:
-                return s.exec_stmt(st, scope)   # purely local statement (DECLARE / SET / LEAVE / ...): fused with the next one
-            return self._run_retrying(s, st, scope)
+            return s.exec_stmt(st, scope)
         finally:
             s.dml_mode = saved_mode
 
-    def _run_retrying(self, s, st, scope):
+    # generator mirror of the engine's procedure-level control flow ---------------------------------------------------
+    def g_execute(self, s, sql, args):
+        st, args = s._prepare(sql, args)
+        return (yield from self.g_top(s, st, args))
+
+    def g_bulk_insert(self, s, prefix, values, postfix, args_list):
+        st, flat = s._prepare_bulk(prefix, values, postfix, args_list)
+        # the multi-row statement node is built per call: give it an identity that is the same in every execution
+        self._ident[id(st)] = ('bulk', prefix, values, postfix, len(args_list))
+        try:
+            rc, _, lid = yield from self.g_top(s, st, flat)
+        finally:
+            self._ident.pop(id(st), None)
+        return rc, lid
+
+    def _sid(self, st):
+        """Identity of a statement node for the state digest (nodes of cached statements / routines live as long as the process)."""
+        return self._ident.get(id(st), id(st))
+
+    def g_top(self, s, st, args):
+        """Session.run_top, step by step."""
+        from vf.minisql.engine import _Iterate, _Leave, _Return
+        from vf.minisql.lexer import SqlSyntaxError
+
+        implicit = s._top_begin(args)
+        try:
+            yield from self.g_stmt(s, st, None)
+        except (_Leave, _Return, _Iterate):
+            raise SqlSyntaxError('LEAVE/RETURN outside routine')
+        except Exception:
+            s._top_abort(implicit)
+            raise
+        return s._top_end(implicit)
+
+    def g_list(self, s, stmts, scope):
+        for st in stmts:
+            yield from self.g_stmt(s, st, scope)
+
+    def g_stmt(self, s, st, scope):
+        """Session.exec_stmt for a statement at a yieldable level (top level, or a procedure body down to proc_depth):
+        compound statements are unfolded here, every other statement is one atomic step of the engine."""
+        from vf.minisql.engine import _Iterate, _Leave, truth
+
+        tag = st[0]
+        if tag == 'block':
+            yield from self.g_list(s, st[1], scope)
+            return
+        if tag == 'if':
+            if self._stmt_reads(st):
+                yield from self.g_yield(s, st)
+            for cond, body in st[1]:
+                if truth(s.ev(cond, scope)):
+                    s.cov(f'{s._where()}:if@{id(cond) % 100000}:T')
+                    yield from self.g_list(s, body, scope)
+                    return
+            if st[2] is not None:
+                yield from self.g_list(s, st[2], scope)
+            return
+        if tag == 'loop':
+            while True:
+                try:
+                    yield from self.g_list(s, st[2], scope)
+                except _Leave as l:
+                    if l.label == st[1]:
+                        return
+                    raise
+                except _Iterate as l:
+                    if l.label == st[1]:
+                        continue
+                    raise
+        if tag == 'while':
+            while True:
+                if self._stmt_reads(st):
+                    yield from self.g_yield(s, st)
+                if not truth(s.ev(st[2], scope)):
+                    return
+                yield from self.g_list(s, st[3], scope)
+        if tag == 'call' and len(s.frames) < self.proc_depth:
+            if self._stmt_reads(st):
+                yield from self.g_yield(s, st)
+            r, f, outs = s._call_enter(st, scope)       # Session.exec_call, step by step
+            s.frames.append(f)
+            s.tx_stack.append(self._sid(st))                   # the call site is part of the session's position
+            try:
+                yield from self.g_stmt(s, r['body'], None)
+            except _Leave:
+                pass
+            finally:
+                s.tx_stack.pop()
+                s.frames.pop()
+            for pname, tgt in outs:
+                s._assign_target(tgt, f.vars[pname])
+            return
+        # leaf statements
+        if tag in LEAF_DB or tag == 'call':
+            if tag != 'select' or self.yield_plain_selects or st[1].get('lock') or st[1].get('kind') != 'select':
+                yield from self.g_yield(s, st)
+        elif tag in TX_END:
+            if s.held or s.undo:
+                yield from self.g_yield(s, st)
+        elif self._stmt_reads(st):
+            yield from self.g_yield(s, st)
+        else:
+            self.run_stmt(s, st, scope)   # purely local statement (DECLARE / SET / FETCH / LEAVE / ...): fused with the next one
+            return
+        # lock-wait retry loop
         while True:
             mark = len(s.undo)
             nfr = len(s.frames)
@@ -293,9 +290,10 @@ class TxModel:
             uvars = dict(s.uservars)
             nrs = len(s.result_sets)
             rc, lid = s.row_count, s.last_insert_id
-            s.tx_stack.append(id(st))
+            s.tx_stack.append(self._sid(st))
             try:
-                return s.exec_stmt(st, scope)
+                self.run_stmt(s, st, scope)
+                return
             except LockWait as lw:
                 s._undo_to(mark)
                 self.version += 1
@@ -307,24 +305,22 @@ class TxModel:
                 s.uservars.update(uvars)
                 del s.result_sets[nrs:]
                 s.row_count, s.last_insert_id = rc, lid
-                self._block(s, lw)
-                self.stats['stmt_retries'] += 1
+                wait = lw
             finally:
                 s.tx_stack.pop()
+            yield from self.g_block(s, wait)
+            self.stats['stmt_retries'] += 1
 
-    def yield_point(self, s, st):
-        w = s.tx_worker
-        if w is None:
-            return   # direct (main-thread) use of a session: nothing to interleave with
+    def g_yield(self, s, st):
         self.stats['yields'] += 1
-        s.tx_stack.append(id(st))
+        s.tx_stack.append(self._sid(st))
         try:
             self._ev(s, 'at', _brief(st))
-            w.suspend('yield')
+            yield 'yield'
         finally:
             s.tx_stack.pop()
 
-    def _block(self, s, lw):
+    def g_block(self, s, lw):
         holders = [h for h in lw.holders if h in self.locks.get(lw.key, {})]
         if not holders:
             return
@@ -344,14 +340,11 @@ class TxModel:
                 continue
             seen.add(id(h))
             stack.extend(self.waiting.get(h, ()))
-        w = s.tx_worker
-        if w is None:
-            raise HarnessError(f'lock wait on {lw.key} outside a worker thread (session used directly while a model is installed)')
         self.waiting[s] = holders
         self.stats['lock_waits'] += 1
         self._ev(s, 'waits-for', lw.key, [self._name(h) for h in holders])
         try:
-            w.suspend('blocked')
+            yield 'blocked'
         finally:
             self.waiting.pop(s, None)
         self._ev(s, 'woken')
@@ -417,7 +410,7 @@ class TxModel:
                     self.to_wake.append(o)
 
     def wake_pending(self):
-        """main thread only: set the asyncio events of sessions whose holder released."""
+        """set the asyncio events of the sessions whose last holder released (called from the asyncio side only)."""
         tw, self.to_wake = self.to_wake, []
         for o in tw:
             ev = o.tx_wake
@@ -562,13 +555,13 @@ class TxModel:
             self._store_digest = (self.version, d)
         sess = []
         for s in self.sessions:
-            w = s.tx_worker
+            w = s.tx_status
             if not (s.in_tx or s.undo or s.held or w is not None or s in self.waiting):
                 continue
             frames = tuple((f.kind, f.name, tuple(sorted((k, repr(v)) for k, v in f.vars.items())),
                             tuple((n, c['pos'], None if c['rows'] is None else len(c['rows'])) for n, c in f.cursors.items()))
                            for f in s.frames)
-            sess.append((s.tx_op, s.in_tx, w.status if w is not None else None, tuple(s.tx_stack), frames,
+            sess.append((s.tx_op, s.in_tx, w, tuple(s.tx_stack), frames,
                          tuple(sorted((k, repr(v)) for k, v in s.uservars.items())), s.row_count, s.last_insert_id,
                          repr(s.result_sets), repr(getattr(s, 'args', None)),
                          tuple(sorted((k[0], repr(k[1]), self.locks[k][s]) for k in s.held)),
@@ -591,20 +584,22 @@ class TxModel:
         return d[1]
 
     # -- driving a statement from the asyncio side -------------------------------------------------------------
-    async def drive(self, s, fn, what=''):
-        if s.tx_worker is not None:
+    async def drive(self, s, gen, what=''):
+        """Advance one statement's generator to completion from the asyncio side."""
+        if s.tx_status is not None:
+            gen.close()
             raise HarnessError('two statements in flight on one connection')
-        w = self.pool.get()
-        w.fn = fn
-        s.tx_worker = w
-        self.inflight.append(w)
+        self.inflight.append(s)
         try:
             while True:
-                self.pool.switch_to(w)
-                self.wake_pending()
-                st = w.status
-                if st == 'done':
-                    break
+                s.tx_status = 'running'
+                try:
+                    st = next(gen)
+                except StopIteration as e:
+                    return e.value
+                finally:
+                    self.wake_pending()
+                s.tx_status = st
                 if st == 'yield':
                     await self.pause()
                 elif st == 'blocked':
@@ -617,23 +612,14 @@ class TxModel:
                         self.db_tasks.discard(task)
                         s.tx_wake = None
                 else:
-                    raise HarnessError(f'worker in state {st!r} handed the baton back')
+                    raise HarnessError(f'statement generator yielded {st!r}')
+        except LockWait as e:
+            raise HarnessError(f'LockWait escaped the statement retry loop: {e!r} during {what[:80]!r}')
         finally:
-            if w.status != 'done':
-                w.abort = True
-                self.pool.switch_to(w)
-                self.wake_pending()
-            s.tx_worker = None
-            self.inflight.remove(w)
-            exc = w.exc
-            res = w.result
-            w.exc = w.result = None
-            self.pool.put(w)
-        if exc is not None:
-            if isinstance(exc, (LockWait, Abort)):
-                raise HarnessError(f'{type(exc).__name__} escaped the statement retry loop: {exc!r} during {what[:80]!r}')
-            raise exc
-        return res
+            gen.close()   # an abandoned statement (task cancelled, horizon exceeded): unwinds the engine frames it holds
+            s.tx_status = None
+            self.inflight.remove(s)
+            self.wake_pending()
 
     async def pause(self):
         """A database yield point on the asyncio side: the explorer decides which paused session steps next."""
@@ -645,18 +631,11 @@ class TxModel:
             self.db_tasks.discard(task)
 
     def shutdown(self):
-        """End of an execution: no statement may still be in flight (drive() aborts its worker when its task is
-        cancelled); anything left is torn down and reported."""
-        left = list(self.inflight)
-        for w in left:
-            if w.status != 'done':
-                w.abort = True
-                self.pool.switch_to(w)
-            self.inflight.remove(w)
-            w.exc = w.result = None
-            self.pool.put(w)
+        """End of an execution: no statement may still be in flight (drive() closes its generator when its task is
+        cancelled).  Returns how many were."""
+        left = len(self.inflight)
         self.to_wake = []
-        return len(left)
+        return left
 
 
 def _brief(st):
@@ -693,7 +672,7 @@ def _from_names(node):
 # ---------------------------------------------------------------------------------------------------------
 
 class TxConn:
-    """Backend connection whose statements run in a worker thread; the aiomysql shim awaits the a* methods."""
+    """Backend connection whose statements are advanced step by step; the aiomysql shim awaits the a* methods."""
 
     def __init__(self, backend):
         self.backend = backend
@@ -715,7 +694,7 @@ class TxConn:
             be.log.append((sql, args))
         s = self.session
         try:
-            res = await self.tm.drive(s, lambda: s.execute(sql, args), sql)
+            res = await self.tm.drive(s, self.tm.g_execute(s, sql, args), sql)
         except Exception as e:
             self._note_result('x', sql, args, exc=e)
             raise
@@ -726,7 +705,7 @@ class TxConn:
         self.backend.n_statements += 1
         s = self.session
         try:
-            res = await self.tm.drive(s, lambda: s.execute_bulk_insert(prefix, values, postfix, args_list), prefix)
+            res = await self.tm.drive(s, self.tm.g_bulk_insert(s, prefix, values, postfix, args_list), prefix)
         except Exception as e:
             self._note_result('b', prefix, args_list, exc=e)
             raise
@@ -857,17 +836,21 @@ def make_loop(chooser, tm: TxModel, t0: float):
 # one execution: N operations as asyncio tasks over one model
 # ---------------------------------------------------------------------------------------------------------
 
+LAST: Optional[TxModel] = None   # the model of the most recent execution (for post-mortem assertions)
+
+
 def run_execution(db, coro_fns, chooser, *, set_backend, order=None, t0=1000.0, snapshot_reads=False, prune=True, trace=False,
                   context=None, max_steps=200000, model_opts=None):
     """Run coro_fns[i]() (i = operation index, available to the model through the OP context variable) concurrently
     (order=None) or one after the other (order = a permutation) on a fresh TxLoop under `chooser`.
     set_backend(backend) installs the TxBackend where the driver shim looks for it and returns an undo callable.
-    -> (results, model, loop errors).  Workers, locks and the model are always torn down, also on exceptions."""
+    -> (results, model, loop errors).  In-flight statements and the model are always torn down, also on exceptions."""
     import contextlib
 
     from vf import vloop
 
-    tm = TxModel(db, snapshot_reads=snapshot_reads, **(model_opts or {}))
+    global LAST
+    tm = LAST = TxModel(db, snapshot_reads=snapshot_reads, **(model_opts or {}))
     if trace:
         tm.trace = []
     db.txmodel = tm
